@@ -11,6 +11,7 @@ package main
 
 import (
 	"fmt"
+	"go/ast"
 	"go/types"
 	"math/bits"
 )
@@ -55,6 +56,21 @@ func (e *Engine) boundedBST(prop string, N int) (ru *Unit) {
 			panic(r)
 		}
 	}()
+	// the unrolling follows the recursion of bst as it was written at baseline time; a body with a loop in it
+	// (a tail call turned into iteration) is outside what this bounded stand-in explores - say so instead of
+	// unrolling a loop without bound
+	hasLoop := false
+	ast.Inspect(fi.decl.Body, func(n ast.Node) bool {
+		switch n.(type) {
+		case *ast.ForStmt, *ast.RangeStmt:
+			hasLoop = true
+		}
+		return !hasLoop
+	})
+	if hasLoop {
+		u.fail("has no loop-free recursive form any more (bst contains a loop): the bounded unrolling does not apply, its obligations are undecided")
+		return u
+	}
 	sig := fn.Type().(*types.Signature)
 	sliceT := sig.Params().At(0).Type()
 	elemT := sliceT.Underlying().(*types.Slice).Elem()
